@@ -13,6 +13,8 @@ THEOREMS = [
     "VK.C18_total_weighted",
     "VK.C18_errors",
     "VK.C18_scot_rejects",
+    "VK.split_three",
+    "VK.C18_scot_accepts",
 ]
 RULE = ("cases = (a) real CSV files written with Python's csv writer: 1-6 rank columns, optional id column at any "
         "position, optional weight column, any subset / order of rank_cols or all columns, delimiters ',' ';' '|' tab, "
